@@ -11,7 +11,7 @@ PROOF_FILES = ["proofs/ContainerProofs.v", "proofs/ContainerFinal.v", "proofs/Se
 TRUSTED_BASE = [
     "Coq 8.16.1 kernel; no axioms (Print Assumptions: closed); no native_compute",
     "extraction (ExtrOcamlBasic only) + ocaml/driver.ml (parsing/printing); Rust harness avrodrive",
-    "hand-written model/Container.v of writer/mod.rs (wstate: buffer, count, pending block, sink, schedule, pools) tied by the correspondence run (null codec: per-call outcomes, sink lengths, bytes)",
+    "hand-written model/Container.v of writer/mod.rs (wstate: buffer, count, pending block, sink, schedule, pools) tied by the correspondence run (null codec: per-call outcomes, sink lengths, bytes; on the accept-everything sink and under partial-write / interruption schedules, the harness' scheduled sink being the machine of VectoredWrite.next_ans/available)",
     "spec/FileSpec.v reference parser (extracted) is the independent judge of every sink snapshot, for every codec; block data of compressed snapshots are decoded by decoders that are not the crate's reader: Python zlib/bz2/lzma for deflate/bzip2/xz (exactly one complete stream per block), the snap / zstd crates' own decoders (harness command blockdec) and Python's zlib.crc32 for snappy/zstandard; the crate's own reader also reads every snapshot for all codecs",
     "hook H3 (hooks/H3.diff, harness command cwh): the starting length of the encode loops' output buffer is set by the run (the crate's value 32768 is one of the values used)",
     "OCaml driver command cwraw: Container.v's writer (parametric in the block compressor) instantiated with the identity and the codec's name; lib/cont.py raw_view rebuilds the same view of a snapshot of the crate's sink from the reference parser's blocks and the independent decoders' payloads",
@@ -195,8 +195,64 @@ def run(ctx):
         if st is not None or isinstance(h, cont.BigHistory):
             g = max([cont.growth_steps(st or 32768, len(d)) for _, d in blocks] + [0]) if fam in cont.LOOP_FAMILIES else 0
             dist["snapshots/buffer-growth-steps/%s/%s%s" % (fam, "0" if g == 0 else "1-2" if g <= 2 else "3-6" if g <= 6 else "7+", "/reordered" if h.reorder else "")] += 1
+    # ---- the same histories through sinks that take the file in pieces: partial writes (gathering / default write_vectored,
+    # k bytes per call) and 'interrupted' at call indexes of block flushes are not failures -- every call must return what it
+    # returns on the accept-everything sink and leave the same bytes behind (then the snapshot is the one judged above);
+    # whatever differs is judged on its own: the snapshot after every call that returned Ok must be a valid file
+    cand = [idx for idx in sorted(pis) if idx < n and not any(v.get("impl_case") == clip(impl_lines[idx]) for v in violations)]
+    rng.shuffle(cand)
+    cand = cand[:(70 if ctx["tier"] == "quick" else 1500)]
+    cases = [{"h": hs[idx][0], "ops": hs[idx][1], "codec": hs[idx][3], "bsz": hs[idx][4], "meta": [], "start": hs[idx][5],
+              "json": jsons[idx], "bp": pis[idx], "idx": idx} for idx in cand]
+    sruns = cont.scheduled_runs(rng, cases, n_inject_bases=2, bad=False, singles=6, n_random=1)
+    q_lines, q_meta = [], []
+    for r in sruns:
+        c = cases[r["ci"]]
+        idx, bp, pi = c["idx"], c["bp"], r["pi"]
+        h, ops, expected = hs[idx][0], hs[idx][1], hs[idx][2]
+        sink_kind = "%s, %s write_vectored" % (r["tag"], "gathering" if r["vectored"] else "default")
+        dist["scheduled-sink-runs/" + ("gathering" if r["vectored"] else "default-write_vectored")] += 1
+        if pi is None or pi.get("build_err"):
+            violations.append({"impl_case": clip(r["line"]), "what": "writer could not be built or crashed on a sink taking partial writes (%s)" % sink_kind, "impl": r["res"][:300]})
+            continue
+        d = cont.model_vs_run(r)
+        if d:
+            diffs.append(d)
+        if cont.canon_ops(pi["ops"]) == cont.canon_ops(bp["ops"]) and pi["sink"] == bp["sink"]:
+            continue
+        done = 0
+        queued = False
+        for oi, ((kind, _sx, *vals), (res, ln), (bres, bln)) in enumerate(zip(ops, pi["ops"], bp["ops"])):
+            if kind in ("ser", "push") and bres == "ok":
+                done += 1
+            if res != "ok" and bres == "ok":
+                violations.append({"impl_case": clip(r["line"]), "what": "call %d ('%s') failed on a well-behaved sink (%s: partial writes and 'interrupted' are not failures) -- it succeeds on the accept-everything sink" % (oi, kind, sink_kind),
+                                   "impl": r["res"][:400]})
+                break
+            if res == "ok" and pi["sink"][:ln] != bp["sink"][:bln] and not queued:
+                queued = True
+                q_lines.append("cr %s slice any %d" % (C.hx(pi["sink"][:ln]), max(200, len(expected) + 3)))
+                q_meta.append((r, oi, kind, ln, done, [h.spec[i]["dany"] for i in expected], kind in ("finish", "into_inner", "drop")))
+    q_res = C.run_parallel(C.AVRODRIVE, q_lines)
+    q_fp = cont.run_model(["fileparse " + l.split()[1] for l in q_lines])
+    for line, res, rfp, (r, oi, kind, ln, done, exp_texts, flush) in zip(q_lines, q_res, q_fp, q_meta):
+        pr = cont.parse_cr(res)
+        sink_kind = "%s, %s write_vectored" % (r["tag"], "gathering" if r["vectored"] else "default")
+        if pr.get("open_err") or "items" not in pr:
+            violations.append({"impl_case": clip(r["line"]), "what": "sink contents after call %d ('%s', first %d bytes) are not a readable file (sink: %s)" % (oi, kind, ln, sink_kind),
+                               "reader": res[:300], "snapshot_case": line[:2000]})
+            continue
+        ok, k, why = cont.values_prefix_then_eof(pr["items"], exp_texts[:done], flush)
+        if not ok:
+            violations.append({"impl_case": clip(r["line"]), "what": "after call %d ('%s', %d bytes, %d values written; sink: %s): %s" % (oi, kind, ln, done, sink_kind, why),
+                               "snapshot_case": line[:2000]})
+        elif cont.parse_fileparse(rfp) is None:
+            violations.append({"impl_case": clip(r["line"]), "what": "reference parser rejects the sink contents after call %d ('%s', first %d bytes; sink: %s)" % (oi, kind, ln, sink_kind)})
+        else:
+            diffs.append({"impl_case": clip(r["line"]), "what": "the sink after call %d differs from the accept-everything sink's at the same call (both valid files) under %s" % (oi, sink_kind)})
+    n_sched = len(sruns) + sum(1 for r in sruns if r["rm"] is not None) + 2 * len(q_lines)
     violations.sort(key=lambda v: len(v.get("impl_case", "")))      # the smallest reproducing inputs first
-    return {"evaluations": len(impl_lines) + len(model_lines) + len(snap_lines) + len(parse_lines), "distinct_nontrivial": len(nontrivial),
+    return {"evaluations": len(impl_lines) + len(model_lines) + len(snap_lines) + len(parse_lines) + n_sched, "distinct_nontrivial": len(nontrivial),
             "rule": "histories over {serialize ok, serialize failing at some depth, push pre-serialized, finish_block, into_inner, drop} x "
                     "approx_block_size {0,1,2,5,16,64,65536} x codecs x starting length of the encode loops' output buffer {crate's 32768, 1, 2, 64} (hook H3); "
                     "random presentations of values carrying 300..6000-byte strings / byte strings under deflate / bzip2 / xz with START in {1,2,64,1024}; a directed "
@@ -207,5 +263,9 @@ def run(ctx):
                     "parsed by the extracted reference parser, every block's data decoded by a decoder that is not the crate's (Python zlib/bz2/lzma; snap / zstd crates "
                     "for snappy / zstandard): exactly one complete stream per block, block counts and payloads = the encodings of a prefix of the values; model vs crate: per-call "
                     "outcomes, header, and at every call the sink with its blocks decompressed = the sink of Container.v's writer run with the identity as block compressor "
-                    "(null codec: sink lengths and bytes as they are)",
+                    "(null codec: sink lengths and bytes as they are); a sample of the histories again through sinks taking the file in pieces (lib/cont.py scheduled_runs: k bytes "
+                    "per call, gathering or default write_vectored, k chosen against the blocks' header/data lengths, irregular sizes; 'interrupted' at call indexes of block "
+                    "flushes -- first call, after partial progress, last, bursts up to 40, every call once / twice): every call's outcome and the sink after it = those on the "
+                    "accept-everything sink (whose snapshots are the ones judged), and = the writer model under the same schedule (null codec); any snapshot that differs is read "
+                    "back and parsed on its own",
             "samples": samples, "violations": violations, "model_diffs": diffs, "distribution": dict(dist)}
